@@ -55,13 +55,32 @@ def run_once(body, choices, horizon=20000):
     return ctx, out
 
 
+def root_children(body, bound=None, horizon=20000):
+    """Run the default execution once and return the prefixes of all its child subtrees (for sharding).
+
+    The subtrees are disjoint and, together with the root execution itself, cover the whole bounded tree."""
+    ctx = Ctx([], horizon)
+    body(ctx)
+    kids = []
+    for i in range(len(ctx.points)):
+        kind, n, price, label = ctx.points[i]
+        if bound is not None and price > bound:
+            continue
+        for alt in range(1, n):
+            kids.append(ctx.choices[:i] + [alt])
+    return kids
+
+
 def explore(body, col, bound=None, horizon=20000, max_executions=None, on_exec=None, sub="exec", case_extra=None,
-            check_determinism=True):
+            check_determinism=True, start=None, root_only=False):
     """Explore every choice sequence with at most `bound` deviations (None = unbounded), level by level.
 
     Violations are recorded in col with the full choice sequence as the replay case. Returns number of executions.
     """
-    levels = {0: [[]]}
+    if start is None:
+        levels = {0: [[]]}
+    else:
+        levels = {0: [list(p) for p in start]}      # sub-roots: explored with the same overall bound
     level = 0
     n_exec = 0
     capped = False
@@ -81,7 +100,7 @@ def explore(body, col, bound=None, horizon=20000, max_executions=None, on_exec=N
         n_exec += 1
         col.case()
         col.count("choice_points", len(ctx.points))
-        col.maxi("max_deviations_completed", level)
+        col.maxi("max_deviations_completed", ctx.deviations())
         if ctx.digest is not None:
             col.add_to("outcomes", ctx.digest if isinstance(ctx.digest, (int, str)) else _digest(ctx.digest))
         if on_exec is not None:
@@ -103,6 +122,8 @@ def explore(body, col, bound=None, horizon=20000, max_executions=None, on_exec=N
         if max_executions is not None and n_exec >= max_executions:
             capped = True
             break
+        if root_only:
+            break
         for i in range(len(prefix), len(ctx.points)):
             kind, n, price, label = ctx.points[i]
             cost = ctx.deviations(i)
@@ -115,3 +136,17 @@ def explore(body, col, bound=None, horizon=20000, max_executions=None, on_exec=N
         col.count("caps_hit")
         col.notes.append("execution cap %s hit: exploration NOT exhaustive for this sub-check" % max_executions)
     return n_exec
+
+
+def explore_part(body, col, part, nparts, bound=None, **kw):
+    """Shard `part` of `nparts` of the bounded tree: part 0 also runs the root execution."""
+    kids = root_children(body, bound, kw.get("horizon", 20000))
+    n = 0
+    if part == 0:
+        n += explore(body, col, bound=bound, root_only=True, **kw)
+    mine = kids[part::nparts]
+    if mine:
+        kw2 = dict(kw)
+        kw2["check_determinism"] = False
+        n += explore(body, col, bound=bound, start=mine, **kw2)
+    return n
